@@ -12,6 +12,9 @@ Campaigns (all specs are JSON-able; every oracle is computed from the spec):
              the components are identified by marker values planted in the generated component modules.
 """
 import datetime
+import decimal
+import fractions
+import json
 import keyword
 import math
 import os
@@ -567,11 +570,40 @@ _GEN_CANDS = [
     0, -1, -17, '0', '-0', '00', '-3', '1.5', '0.5', '2.75', '', ' ', 'abc', 'one', '1a', 'a1', '1-2', '1,000', '1/2', '--1',
     'NaN', 'nan', 'inf', 'None', 'True', '1_0', ' 2 ', '+3', '\u0663', '01', '1.0', '1e3', '0x1', '2\n', '\uff11', '10.', '1__0',
     '_1', '1_', '0.0', '-1.0', '1e-3', '+0', ' 0', '0b1', '1 2', '1.', '.5', '1.0.0', '9' * 30,
+    # typed candidates (JSON-able as [type, literal]): what callers holding a number of another kind would pass
+    ['float', 1.5], ['float', 2.7], ['float', 0.5], ['float', 2.0], ['float', 1e3], ['float', -1.0], ['float', 12.000001],
+    ['bool', True], ['bool', False], ['bytes', '2'], ['bytes', '1.5'], ['none', None], ['decimal', '2.5'], ['decimal', '3'],
+    ['fraction', '5/2'], ['fraction', '4/2'],
 ]  # fmt: skip
+
+
+def cand_value(c):
+    """The Python object a candidate stands for."""
+    if not isinstance(c, list):
+        return c
+    kind, lit = c
+    if kind == 'bytes':
+        return lit.encode()
+    if kind == 'decimal':
+        return decimal.Decimal(lit)
+    if kind == 'fraction':
+        return fractions.Fraction(lit)
+    return lit  # float / bool / None are JSON values already
 
 
 def gen_denotes(v):
     """('invalid', None) | ('valid', n) | ('open', n): what the value denotes under Python's own number parsing."""
+    if isinstance(v, list):
+        val = cand_value(v)
+        if val is None or val is False:
+            return 'invalid', None
+        if val is True:
+            return 'open', 1
+        if isinstance(val, bytes):
+            return gen_denotes(val.decode()) if not re.fullmatch(r'[1-9][0-9]*', val.decode()) else ('open', int(val))
+        if val != int(val) or val < 1:  # a non-integral or non-positive number is no natural number, however it is spelled
+            return 'invalid', None
+        return 'open', int(val)
     if isinstance(v, int):
         return ('valid', v) if v >= 1 else ('invalid', None)
     if re.fullmatch(r'[1-9][0-9]*', v):
@@ -638,7 +670,7 @@ def check_genkey(ctx, spec):
     _check_listing(ctx, spec, keys, sorted(set(ns)), int, 'generation')
     if ns and max(ns) < 10**7 and not _check_put_after(ctx, spec, sorted(set(ns))[:4]):
         return
-    for cand, (kind, n) in zip(spec['cands'], cls):
+    for cand, (kind, n) in zip(map(cand_value, spec['cands']), cls):
         try:
             key = Key(cand)
         except Key.Invalid:
@@ -741,6 +773,93 @@ def check_manifest(ctx, spec):
                 return
     finally:
         shutil.rmtree(base, ignore_errors=True)
+
+
+# ---- manifests rewritten at one path ------------------------------------------------------------------------------------
+@st.composite
+def rewrite_spec(draw):
+    """2-4 manifests written one after another into the *same* directory (what re-building a project does), each read back
+    right after its write. Edits keep the text length in half of the steps (a version digit, a module letter): the reader
+    imports the manifest as a module, so anything that trusts an earlier load of that path - a memo keyed by the path, the
+    interpreter's byte-code cache, which validates by size and mtime second - shows only then."""
+    first = draw(manifest_spec())
+    if not first['modules']:
+        first['modules'] = {'source': draw(dotted)}
+    seq = [first]
+    for _ in range(draw(st.integers(1, 3))):
+        prev = dict(seq[-1], modules=dict(seq[-1]['modules']))
+        edit = draw(st.sampled_from(['digit', 'digit', 'letter', 'letter', 'fresh']))
+        if edit == 'digit' and re.search(r'\d', prev['version']):
+            pos = [m.start() for m in re.finditer(r'\d', prev['version'])][-1]
+            old = prev['version'][pos]
+            new = draw(st.sampled_from([d for d in '123456789' if d != old]))
+            prev['version'] = prev['version'][:pos] + new + prev['version'][pos + 1:]
+        elif edit == 'letter' and prev['modules']:
+            comp = sorted(prev['modules'])[0]
+            mod = prev['modules'][comp]
+            new = draw(st.sampled_from([c for c in 'abcxyz' if c != mod[-1]]))
+            prev['modules'][comp] = mod[:-1] + new
+        else:
+            prev = draw(manifest_spec())
+        seq.append(prev)
+    return {'seq': seq, 'bytecode': draw(st.sampled_from([True, True, False]))}
+
+
+def _rewrite_child(base: str, spec) -> list:
+    """In a forked child: byte-code caching as in production (./check switches it off for the harness itself), cache files
+    kept under the scratch directory."""
+    import sys
+
+    if spec['bytecode']:
+        sys.dont_write_bytecode = False
+        sys.pycache_prefix = os.path.join(base, 'pycache')
+    target = os.path.join(base, 'build')
+    out = []
+    for item in spec['seq']:
+        step = {}
+        try:
+            prj.Manifest(item['name'], item['version'], item['package'], **item['modules']).write(target)
+        except Exception as exc:  # pylint: disable=broad-except
+            step['write'] = f'{type(exc).__name__}: {exc}'
+            out.append(step)
+            break
+        for clause, reader in (('manifest-read', lambda: prj.Manifest.read(target)), ('package-dir-manifest', lambda: prj.Package(target).manifest)):
+            try:
+                step[clause] = observe_manifest(reader())
+            except Exception as exc:  # pylint: disable=broad-except
+                step[clause] = f'{type(exc).__name__}: {exc}'
+        out.append(step)
+    return out
+
+
+def check_rewrite(ctx, spec):
+    seq = spec['seq']
+    samelen = [len(json.dumps(a, sort_keys=True)) == len(json.dumps(b, sort_keys=True)) for a, b in zip(seq, seq[1:])]
+    classes = ['rewrite', f'rewrite:steps={len(seq)}'] + (['rewrite:same-length'] if any(samelen) else []) + (['rewrite:bytecode'] if spec['bytecode'] else [])
+    ctx.case(spec, nontrivial=any(samelen), classes=classes)
+    base = str(_scratch(ctx, 'rw'))  # fresh per case: a case is its own history (replayable)
+    try:
+        res = iso.forked(_rewrite_child, base, spec, timeout=120)
+    finally:
+        shutil.rmtree(base, ignore_errors=True)
+    if isinstance(res, dict) and '__child_error__' in res:
+        raise RuntimeError(f'rewrite child failed: {res}')
+    tags = ['bytecode-cache' if spec['bytecode'] else 'no-bytecode']
+    for i, (item, step) in enumerate(zip(seq, res)):
+        pos = ['first-write'] if i == 0 else ['same-length' if samelen[i - 1] else 'other-length']
+        if 'write' in step:
+            ctx.fail(spec, 'manifest-write-raises', step['write'].split(':')[0], f'step {i}: {step["write"]}', tags + pos)
+            return
+        for clause in ('manifest-read', 'package-dir-manifest'):
+            got = step[clause]
+            if isinstance(got, str):
+                ctx.fail(spec, f'{clause}-raises', got.split(':')[0], f'step {i}: {got}', tags + pos)
+                return
+            bad = manifest_diff(got, item)
+            if bad:
+                stale = i > 0 and any(not manifest_diff(got, earlier) for earlier in seq[:i])
+                ctx.fail(spec, clause, 'stale-after-rewrite' if stale else 'differs', f'step {i}: ' + '; '.join(bad), tags + pos)
+                return
 
 
 _SOURCE_TMPL = '''from forml import project
@@ -965,6 +1084,7 @@ def campaigns(ctx):
         Campaign('genkey', genkey_spec(), check_genkey, 1500, 12000),
         Campaign('manifest', manifest_spec(), check_manifest, 500, 4000),
         Campaign('package', package_spec(), check_package, 100, 500),
+        Campaign('rewrite', rewrite_spec(), check_rewrite, 250, 1500),
     ]
 
 
